@@ -26,7 +26,8 @@ type pathExpression struct {
 // Returns an error if the path is invalid.
 func newPathExpression(path string) (*pathExpression, error) {
 	expression, literalCount, varNames, varCount, tokens := templateToRegularExpression(path)
-	compiled, err := regexp.Compile(expression)
+	// (?s): a request path may contain a newline (%0A); let '.' in the trailing group match it
+	compiled, err := regexp.Compile("(?s)" + expression)
 	if err != nil {
 		return nil, err
 	}
